@@ -1,6 +1,6 @@
 """C20 -- DEF data is extracted as written, with wildcards and via arrays expanded."""
 import random
-from harness import defgen as dg, circgen as cg, def_elab as de, def_text as dt, def_route_src as drs
+from harness import defgen as dg, circgen as cg, def_elab as de, def_text as dt, def_route_src as drs, def_callbacks_src as dcs
 
 THEOREMS = ['C20_wildcard_resolve', 'C20_wildcard_nearest', 'C20_via_location', 'C20_wire_vias_listing',
             'C20_via_array_members', 'C20_via_array_count', 'C20_via_array_nodup', 'C20_via_array_order',
@@ -19,6 +19,8 @@ THEOREMS = ['C20_wildcard_resolve', 'C20_wildcard_nearest', 'C20_via_location', 
 
 # source tie (translation): Gen/DefRouteSrc.v = Model/DefRoute.v
 THEOREMS += ['C20_route_source_is_model', 'C20_dnet_source_is_model', 'C20_route_source_nonvacuous']
+# source tie (translation): Gen/DefCallbacksSrc.v = the callbacks pins_opt / pins_stmt / comp_stmt of Model/DefElab.v
+THEOREMS += ['C20_callbacks_source_is_model', 'C20_callbacks_source_precondition_needed', 'C20_callbacks_source_nonvacuous']
 
 WHAT = {'regular-net-wires': 'DefNet.wires raises TypeError on a regular net (int(None): wire() never sets a width)',
         'wildcard-wire-points': 'DefWire.wire_points / DefNet.wires leave a "*" coordinate as None instead of the previous value',
@@ -57,12 +59,20 @@ def run(ck):
     # translation (tie T): Gen/DefRouteSrc.v is regenerated from the current text of def_file.py; C20_route_source_is_model then re-proves
     # that the translated DefWire.wire_points / .vias and DefNet.wires / .vias are the hand model the routing theorems are stated on
     src_ok = drs.translate(ck)
+    # translation (tie T): Gen/DefCallbacksSrc.v is regenerated from the current text of def_file.py; C20_callbacks_source_is_model then
+    # re-proves that the translated pins_opt / pins_stmt / comp_stmt are the hand transcription of Model/DefElab.v
+    cbs_ok = dcs.translate(ck)
+    dcs.install()
+    del dcs.LOG[:]
+    dcs.SEEN.clear()
     proved, _ = ck.prove('C20', THEOREMS)
     if not proved:
         from vcheck import core
         core.coq_make(core.support_targets())     # the models must exist for the correspondence even when a proof broke
         if src_ok:
             core.coq_make(['theories/Gen/DefRouteSrc.vo'])
+        if cbs_ok:
+            core.coq_make(['theories/Gen/DefCallbacksSrc.vo'])
     src_cases, src_meta = [], []
     rng = random.Random(ck.seed * 7919 + 20)
     fails = {}            # key -> (replay input, message)   (first failing input per kind of failure)
@@ -321,6 +331,31 @@ def run(ck):
                       'directly built nets; objects and results written as the Python values they are): wire_points, vias, wires, vias '
                       'listings incl. key order; raises iff the implementation raises', sran and not sbad, 'correspondence',
                       f'failing cases {sbad[:8]}')
+    cbad, cmeta = [], []
+    if cbs_ok:
+        cseen, ccount = set(), {}
+        for name, c in list(dcs.LOG):
+            ccount[name] = ccount.get(name, 0) + 1
+            if c not in cseen and len(cseen) < ck.scale(900, 6000):
+                cseen.add(c)
+                cmeta.append((name, c, 'argument list seen by the recording transformer'))
+        cmeta += dcs.direct_cases()
+        per, cran = 300, True
+        couts = ck.coq_eval_many('defcbsrc', [dcs.cases_file([c for _, c, _ in cmeta[k:k + per]]) for k in range(0, len(cmeta), per)], jobs=12)
+        for ci, (ok, out) in enumerate(couts):
+            lst = cg.parse_nat_list(out) if ok else None
+            if lst is None:
+                cran = False
+                cbad.append(('coqc', out[-600:]))
+            else:
+                cbad += [ci * per + j for j in lst]
+        ck.obligation(f'translated source Gen/DefCallbacksSrc.v = the real DefTransformer.pins_opt / pins_stmt / comp_stmt on {len(cmeta)} distinct '
+                      f'argument lists ({sum(ccount.values())} calls seen while lark parsed the generated files: {sorted(ccount.items())}; plus direct '
+                      'calls incl. wrong shapes): value returned / entry stored (key, vars() in order); raises iff the implementation raises',
+                      cran and not cbad and all(ccount.get(n, 0) > 0 for n in dcs.CALLBACKS), 'correspondence',
+                      f'failing cases {[(cmeta[j][0], cmeta[j][1][:300]) if isinstance(j, int) else j for j in cbad[:4]]}')
+        ck.dist.update({f'callback-source:{k}': v for k, v in ccount.items()})
+        ck.dist['callback-source:calls with a text outside printable ASCII (no case)'] = sum(dcs.SEEN.values()) - sum(ccount.values())
     ck.obligation(f'Coq model of the ROW / TRACKS branch of design_stmt = implementation on {len(misc_cases)} statements',
                   ran and not bad['misc'], 'correspondence', f'failing statements {bad["misc"][:8]}')
     ck.obligation('every routing feature of the property\'s quantifier was generated (wildcards, double wildcards, ext values, vias plain / with '
@@ -359,6 +394,10 @@ def run(ck):
         ck.fail('source-disagrees', 'translated source and implementation disagree', {'component': 'Gen/DefRouteSrc.v',
                 'input': src_meta[first][0] if first is not None else {}, 'where': src_meta[first][1] if first is not None else str(sbad)[:500]},
                 found_input=False)
+    if not fails and cbad:
+        first = cbad[0] if isinstance(cbad[0], int) else None
+        ck.fail('callback-source-disagrees', 'translated callback source and implementation disagree', {'component': 'Gen/DefCallbacksSrc.v',
+                'input': {}, 'where': (cmeta[first][0] + ': ' + cmeta[first][1][:400]) if first is not None else str(cbad)[:500]}, found_input=False)
     if not fails and any(bad.values()):
         first = bad['net'][0] if bad['net'] and isinstance(bad['net'][0], int) else None
         ck.fail('model-disagrees', 'Coq model and implementation disagree', {'component': 'Model/DefRoute.v',
